@@ -5,3 +5,8 @@ import LettreVerif.Props.C11
 #print axioms LV.C11.delimiter_before_each_part
 #print axioms LV.C11.single_part_layout
 #print axioms LV.C11.message_layout
+#print axioms LV.C11.parse_format
+#print axioms LV.C11.parse_format_multipart
+#print axioms LV.C11.formatFields_append
+#print axioms LV.C11.parse_message
+#print axioms LV.C11.checked_tree_reads_back
